@@ -122,7 +122,7 @@ PROPS = {
                       'covers every such chunking.',
     },
     'C15': {
-        'modules': ['C15', 'C15Headers', 'TieHs', 'TieResp'],
+        'modules': ['C15', 'C15Headers', 'TieHs', 'TieResp', 'TieParts', 'C15Gen'],
         'families': [('corpus:hs', 0, 0), ('hs:cuts', 1, 1), ('hs:server', 2500, 60000)],
         'rule': 'request heads from a grammar: every subset / order / casing of the required headers, near-miss values, duplicates, extra headers up to '
                 'and past the limit, key shapes, methods, versions, bare-LF line ends, byte mutations, trailing bytes, endless heads; every transport '
